@@ -2206,7 +2206,7 @@ func (p *wat2arm64Worker) buildFunc_ins(
 		assert(!p.isS12Overflow(int32(off)))
 		assert(!p.isS12Overflow(int32(dst)))
 
-		fmt.Fprintf(w, "    # memory.init")
+		fmt.Fprintf(w, "    # memory.init\n")
 
 		// 内存的开始地址
 		fmt.Fprintf(w, "    pcalau12i $t0, %%pc_hi20(%s)\n", kMemoryAddrName)
@@ -2241,7 +2241,7 @@ func (p *wat2arm64Worker) buildFunc_ins(
 		assert(!p.isS12Overflow(int32(src)))
 		assert(!p.isS12Overflow(int32(dst)))
 
-		fmt.Fprintf(w, "    # memory.copy")
+		fmt.Fprintf(w, "    # memory.copy\n")
 
 		// 内存的开始地址
 		fmt.Fprintf(w, "    pcalau12i $t0, %%pc_hi20(%s)\n", kMemoryAddrName)
